@@ -47,6 +47,9 @@ pub enum HOp {
     DropPk(u8),
     CloneSk(u8),
     ClonePk(u8),
+    /// `dst.clone_from(&src)` on two pool objects
+    AssignSk { dst: u8, src: u8 },
+    AssignPk { dst: u8, src: u8 },
 }
 
 #[derive(Clone, Debug, Hash, Serialize, Deserialize)]
@@ -96,6 +99,8 @@ fn op() -> impl Strategy<Value = HOp> {
         1 => any::<u8>().prop_map(HOp::DropPk),
         1 => any::<u8>().prop_map(HOp::CloneSk),
         1 => any::<u8>().prop_map(HOp::ClonePk),
+        1 => (any::<u8>(), any::<u8>()).prop_map(|(dst, src)| HOp::AssignSk { dst, src }),
+        1 => (any::<u8>(), any::<u8>()).prop_map(|(dst, src)| HOp::AssignPk { dst, src }),
     ]
 }
 
@@ -354,6 +359,38 @@ pub fn check(focus: Focus, c: &Case, st: &mut Stats) -> CheckResult {
                     let c2 = (g("pk.clone", || k.clone_box())?, kb.clone());
                     history.push("clone pk".into());
                     pks.push(c2);
+                }
+            }
+            HOp::AssignSk { dst, src } => {
+                if sks.len() >= 2 {
+                    let (d, sidx) = (*dst as usize % sks.len(), *src as usize % sks.len());
+                    if d != sidx {
+                        let (sobj, sbytes) = (g("sk.clone", || sks[sidx].0.clone_box())?, sks[sidx].1.clone());
+                        let slot = &mut sks[d];
+                        g("sk.clone_from", || slot.0.assign_from(&*sobj))?;
+                        slot.1 = sbytes;
+                        history.push("sk.clone_from(other)".into());
+                        let back = g("sk.into_bytes", || sks[d].0.to_bytes())?;
+                        if back != sks[d].1 {
+                            mismatch(Focus::Serialise, "sk_clone_from_differs", "after dst.clone_from(&src) the destination private key does not serialise to the source's bytes".into())?;
+                        }
+                    }
+                }
+            }
+            HOp::AssignPk { dst, src } => {
+                if pks.len() >= 2 {
+                    let (d, sidx) = (*dst as usize % pks.len(), *src as usize % pks.len());
+                    if d != sidx {
+                        let (sobj, sbytes) = (g("pk.clone", || pks[sidx].0.clone_box())?, pks[sidx].1.clone());
+                        let slot = &mut pks[d];
+                        g("pk.clone_from", || slot.0.assign_from(&*sobj))?;
+                        slot.1 = sbytes;
+                        history.push("pk.clone_from(other)".into());
+                        let back = g("pk.into_bytes", || pks[d].0.to_bytes())?;
+                        if back != pks[d].1 {
+                            mismatch(Focus::Serialise, "pk_clone_from_differs", "after dst.clone_from(&src) the destination public key does not serialise to the source's bytes".into())?;
+                        }
+                    }
                 }
             }
             HOp::DropSk(j) => {
